@@ -33,10 +33,15 @@ static void blk_add (void *p) { if (p && nblk < MAXBLK) blk[nblk++] = p; }
 static int blk_del (void *p) { for (int i = nblk - 1; i >= 0; i--) if (blk[i] == p) { blk[i] = blk[--nblk]; return 1; } return 0; }
 static void note_free (void *p) { for (int i = 0; i < nimg; i++) if (alive[i] && (void *)imgs[i] == p) { alive[i] = 0; if (nfreed_now < MAXIMG) freed_now[nfreed_now++] = i; } }
 
-void *__wrap_malloc (size_t n) { void *p = __real_malloc (n); if (in_lib) blk_add (p); return p; }
-void *__wrap_calloc (size_t a, size_t b) { void *p = __real_calloc (a, b); if (in_lib) blk_add (p); return p; }
+/* failure injection: "f<k>/<op>" makes the k-th allocation request inside that library call return NULL */
+static int fail_k;              /* of the request being executed (0 = none) */
+static volatile int fail_cd;    /* countdown while inside the designated call */
+static int should_fail (void) { return in_lib && fail_cd > 0 && --fail_cd == 0; }
+void *__wrap_malloc (size_t n) { if (should_fail ()) return NULL; void *p = __real_malloc (n); if (in_lib) blk_add (p); return p; }
+void *__wrap_calloc (size_t a, size_t b) { if (should_fail ()) return NULL; void *p = __real_calloc (a, b); if (in_lib) blk_add (p); return p; }
 void *__wrap_realloc (void *o, size_t n)
 {
+    if (should_fail ()) return NULL;
     if (in_lib && o && !blk_del (o)) badfree++;
     void *p = __real_realloc (o, n);
     if (in_lib) blk_add (p);
@@ -49,7 +54,7 @@ void __wrap_free (void *p)
     if (p && in_lib) { note_free (p); if (!blk_del (p)) { badfree++; return; } }
     __real_free (p);
 }
-#define LIB(stmt) do { in_lib = 1; stmt; in_lib = 0; } while (0)
+#define LIB(stmt) do { in_lib = 1; fail_cd = fail_k; stmt; fail_cd = 0; in_lib = 0; } while (0)
 
 static int id_of (const void *p) { for (int i = 0; i < nimg; i++) if (alive[i] && (const void *)imgs[i] == p) return i; return -1; }
 
@@ -138,6 +143,8 @@ static pixman_region16_t *mk_region16 (pixman_region16_t *r, int n)
 static void exec_tok (const char *tok)
 {
     char t[256]; char *f[8]; int nf = 0;
+    fail_k = 0;
+    if (tok[0] == 'f' && strchr (tok, '/')) { fail_k = atoi (tok + 1); tok = strchr (tok, '/') + 1; }
     strncpy (t, tok, sizeof t - 1); t[sizeof t - 1] = 0;
     for (char *s = t; nf < 8; ) { f[nf++] = s; s = strchr (s, ':'); if (!s) break; *s++ = 0; }
     const char *res = "?"; char resbuf[32];
@@ -247,6 +254,7 @@ static void exec_tok (const char *tok)
     /* freed image structs in ascending id order */
     for (int i = 0; i < nimg; i++) for (int k = 0; k < nfreed_now; k++) if (freed_now[k] == i) fprintf (fo, "~%d", i);
     for (int k = 0; k < ninv; k++) if (held (inv[k])) { fputc (';', fo); obs (inv[k]); }
+    fail_k = 0;
     fflush (fo);     /* after an abort or a hang the reply shows which call did not come back */
 }
 
@@ -278,6 +286,10 @@ static FILE *fops;
  * (unterminated) line of <ops_out> is the history that did it */
 static void emit (const char *tok)
 {
+    char ft[200];
+    /* 6% of the calls that allocate are issued with an allocation failure (1st .. 3rd request) */
+    if (strchr ("BSLRCTFKk", tok[0]) ? tok[1] == ':' || tok[1] == 0 : !strncmp (tok, "GI:", 3))
+        if (rng_chance (6)) { snprintf (ft, sizeof ft, "f%d/%s", 1 + rng_n (3) % (1 + rng_n (3)), tok); tok = ft; }
     fprintf (fops, " %s", tok); fflush (fops);
     fputc (' ', fo); exec_tok (tok);
 }
